@@ -137,7 +137,13 @@ fn pushn_handler(ctx: &CallContext, v: Value) -> Result<Value, (ErrorCode, Strin
     let method = String::from_utf8(qpattern(m, s)).unwrap();
     let Some(p) = ctx.peer() else { return Ok(json!("no-peer")) };
     let r1 = p.send_notify("/c1", NotifyBody::Raw(pattern(10, s), BodyFormat::RawBinary));
-    let r2 = p.send_notify(&method, NotifyBody::Raw(pattern(n, s), BodyFormat::RawBinary));
+    // `r`: how many copies of the sized notification go out back to back (1 on the `pushn` path)
+    let mut r2 = Ok(());
+    for _ in 0..v["r"].as_u64().unwrap_or(1) {
+        if let Err(e) = p.send_notify(&method, NotifyBody::Raw(pattern(n, s), BodyFormat::RawBinary)) {
+            r2 = Err(e);
+        }
+    }
     let r3 = p.send_notify("/c2", NotifyBody::Raw(pattern(11, s), BodyFormat::RawBinary));
     if r1.is_ok() && r2.is_ok() && r3.is_ok() { Ok(json!("pushed")) } else { Ok(json!("push-failed")) }
 }
@@ -423,7 +429,7 @@ async fn make_world(cfg: &str, upstream: SocketAddr) -> Result<World, String> {
     let peer_addr = cl.local_addr().unwrap();
     {
         let seen = seen.clone();
-        let peer_chop: u8 = match cfg { "1024" => 1, "4096" => 2, "1048576" => 3, "64" => 5, "u" => 6, _ => 0 };
+        let peer_chop: u8 = match cfg { "1024" => 5, "200" => 1, "4096" => 2, "1048576" => 3, "64" => 5, "u" => 6, _ => 0 };
         tokio::spawn(async move {
             loop {
                 let Ok((stream, _)) = cl.accept().await else { break };
@@ -537,7 +543,12 @@ struct Spec {
     blen: usize,
 }
 
-const FRAME_PATHS: &[&str] = &["inline", "off", "joff", "push", "pushoff", "pushn", "bcast", "bcastj", "bcastu", "proxy"];
+const FRAME_PATHS: &[&str] = &["inline", "off", "joff", "push", "pushoff", "pushn", "pushrun", "bcast", "bcastj", "bcastu", "proxy"];
+
+/// Length of the run on the `pushrun` / `batchrun` kinds (from the id: on the op line, so a replay is exact).
+fn run_len(id: u64) -> usize {
+    [2usize, 9, 17, 65][(id % 4) as usize]
+}
 
 fn route_of(path: &str) -> &'static str {
     match path {
@@ -546,7 +557,7 @@ fn route_of(path: &str) -> &'static str {
         "joff" => "/jblob",
         "push" => "/push",
         "pushoff" => "/push_off",
-        "pushn" => "/pushn",
+        "pushn" | "pushrun" => "/pushn",
         _ => "",
     }
 }
@@ -584,7 +595,7 @@ fn cfg_effective(cfg: &str) -> Option<Option<usize>> {
     }
 }
 
-const CLIENT_KINDS: &[&str] = &["call", "notify", "cjson", "cjsont", "ctyped", "cbeve", "rwrite", "njson", "nbeve", "batch"];
+const CLIENT_KINDS: &[&str] = &["call", "notify", "cjson", "cjsont", "ctyped", "cbeve", "rwrite", "njson", "nbeve", "batch", "batchrun"];
 
 /// Number of characters whose BEVE string encoding is `blen` bytes long, if there is one.
 fn beve_chars(blen: usize) -> usize {
@@ -616,7 +627,8 @@ async fn run_frame(w: &mut World, s: &Spec) -> CaseResult {
     let path = s.kind.as_str();
     let seed = fnv(s.idx.as_bytes());
     let intended = 48 + s.qlen + s.blen;
-    let is_notify = matches!(path, "push" | "pushoff" | "pushn" | "bcast" | "bcastj" | "bcastu");
+    let is_notify = matches!(path, "push" | "pushoff" | "pushn" | "pushrun" | "bcast" | "bcastj" | "bcastu");
+    let copies = if path == "pushrun" { run_len(s.id) } else if path.starts_with("bcast") { 2 } else { 1 };
     let is_bcast = path.starts_with("bcast");
     // 1 in 4 of the handler-made responses is an error response of the handler's own
     let own_ec: u32 = if matches!(path, "inline" | "off" | "proxy") && seed % 4 == 0 { if seed % 8 == 0 { 4096 } else { 5 } } else { 0 };
@@ -670,9 +682,9 @@ async fn run_frame(w: &mut World, s: &Spec) -> CaseResult {
                 delivered = others;
                 response = Some(r);
             }
-            "push" | "pushoff" | "pushn" => {
+            "push" | "pushoff" | "pushn" | "pushrun" => {
                 let rid = w.fresh();
-                let body = serde_json::to_vec(&json!({"m": s.qlen, "n": s.blen, "s": seed})).unwrap();
+                let body = serde_json::to_vec(&json!({"m": s.qlen, "n": s.blen, "s": seed, "r": if path == "pushrun" { copies } else { 1 }})).unwrap();
                 w.srv.send(&RawFrame::request(rid, false, 1, route.as_bytes(), 2, &body)).await?;
                 let (others, r) = recv_answer(&mut w.srv, rid).await?;
                 delivered = others;
@@ -754,7 +766,7 @@ async fn run_frame(w: &mut World, s: &Spec) -> CaseResult {
     // the two small pushes around the sized one on the `pushn` path
     let chaff: Vec<RawFrame> = delivered.iter().filter(|f| f.h.notify != 0 && (f.query == b"/c1" || f.query == b"/c2")).cloned().collect();
     delivered.retain(|f| !(f.h.notify != 0 && (f.query == b"/c1" || f.query == b"/c2")));
-    if path == "pushn" && !broken {
+    if (path == "pushn" || path == "pushrun") && !broken {
         let mut c1 = RawFrame::request(0, true, 1, b"/c1", 0, &pattern(10, seed));
         c1.h.notify = 1;
         let mut c2 = RawFrame::request(0, true, 1, b"/c2", 0, &pattern(11, seed));
@@ -785,7 +797,7 @@ async fn run_frame(w: &mut World, s: &Spec) -> CaseResult {
         }
     };
     let rep = if reports.is_empty() || conn_is_proxy { " ; report -".to_string() } else { reports.iter().map(|(_, s, l)| format!(" ; report {} {}", s, l)).collect::<String>() };
-    let op = format!("frame {} {} {} {} {} {} {} {}", s.idx, path, s.cfg, is_notify as u8, if is_notify { 0 } else { s.id }, s.qlen, s.blen, rlen);
+    let op = format!("frame {} {} {} {} {} {} {} {}", s.idx, path, s.cfg, is_notify as u8, if is_notify && path != "pushrun" { 0 } else { s.id }, s.qlen, s.blen, rlen);
     let obs = format!("{} {}{}", s.idx, what, rep);
     // ---- direct oracles -----------------------------------------------------------------------
     if let Some(l) = s.limit {
@@ -805,6 +817,9 @@ async fn run_frame(w: &mut World, s: &Spec) -> CaseResult {
                 Some(b) if b == expected_bytes => {}
                 Some(b) => fail(&mut fails, "changed", format!("{}: a {}-byte message at or below the limit {} was not delivered unchanged (got {} bytes)", s.idx, intended, lim_str(s.limit), b.len())),
                 None => fail(&mut fails, "changed", format!("{}: a {}-byte message at or below the limit {} was not delivered", s.idx, intended, lim_str(s.limit))),
+            }
+            if path == "pushrun" && delivered.iter().filter(|f| f.h.notify != 0).map(|f| f.to_vec()).collect::<Vec<_>>() != vec![expected_bytes.clone(); copies] {
+                fail(&mut fails, "changed", format!("{}: {} copies of a {}-byte notification within the limit were pushed back to back; {} arrived unchanged", s.idx, copies, intended, delivered.iter().filter(|f| f.h.notify != 0 && f.to_vec() == expected_bytes).count()));
             }
             if is_bcast && delivered2.iter().map(|f| f.to_vec()).collect::<Vec<_>>() != vec![expected_bytes.clone()] {
                 fail(&mut fails, "changed", format!("{}: the second peer of the broadcast did not get the {}-byte notification unchanged ({} frame(s))", s.idx, intended, delivered2.len()));
@@ -839,7 +854,7 @@ async fn run_frame(w: &mut World, s: &Spec) -> CaseResult {
                 let want = (String::from_utf8_lossy(&exp_query).to_string(), intended, l);
                 // a query that is not UTF-8 has no method *name*: only size and limit are compared then
                 let same = |r: &(String, usize, usize)| (r.1, r.2) == (want.1, want.2) && (std::str::from_utf8(&exp_query).is_err() || r.0 == want.0);
-                if reports.len() != (if is_bcast { 2 } else { 1 }) || !reports.iter().all(same) {
+                if reports.len() != copies || !reports.iter().all(same) {
                     fail(&mut fails, "not_reported", format!("{}: refusal of a {}-byte message (limit {}) reported as {:?}", s.idx, intended, l, reports));
                 }
             }
@@ -890,8 +905,26 @@ async fn run_client(w: &mut World, s: &Spec) -> CaseResult {
                 Err(_) => Err(()),
             }
         }
+        "batchrun" => {
+            // a run of identical sized calls at once on the same client
+            let n = run_len(s.id);
+            let reqs: Vec<(String, Value)> = (0..n).map(|_| (path.clone(), json!(text))).collect();
+            match tokio::time::timeout(WATCHDOG, w.client.batch_json(reqs)).await {
+                Ok(v) if v.len() == n => {
+                    let first_class = |r: &Result<Value, RepeError>| match r { Ok(_) => 0, Err(RepeError::MessageTooLarge { .. }) => 1, Err(_) => 2 };
+                    neighbours_ok = v.iter().all(|r| first_class(r) == first_class(&v[0]));
+                    Ok(v.into_iter().next().unwrap().map(|_| ()))
+                }
+                Ok(_) => Ok(Err(RepeError::Io(std::io::Error::other("batch result count")))),
+                Err(_) => Err(()),
+            }
+        }
         _ => Ok(Err(RepeError::Io(std::io::Error::other("unknown client kind")))),
     };
+    let copies = if kind == "batchrun" { run_len(s.id) } else { 1 };
+    if kind == "batchrun" && !neighbours_ok {
+        fail(&mut fails, "run_disagrees", format!("{}: {} identical calls in one batch did not all end the same way", s.idx, copies));
+    }
     // one more request on the same client
     let follow = tokio::time::timeout(WATCHDOG, w.client.call_with_formats("/ping", 1, Some(b"null"), 2)).await;
     match &follow {
@@ -944,7 +977,7 @@ async fn run_client(w: &mut World, s: &Spec) -> CaseResult {
         if !matches!(res, Ok(Ok(()))) {
             fail(&mut fails, "refused_within_limit", format!("{}: a {}-byte {} within the limit {} returned {}", s.idx, intended, kind, lim_str(s.limit), class));
         }
-        let ok = mine.len() == 1 && {
+        let ok = mine.len() == copies && mine.iter().all(|m| m.len() == mine[0].len()) && {
             match RawFrame::parse_prefix(mine[0]) {
                 Some((f, n)) if n == mine[0].len() => {
                     let mut e = RawFrame::request(f.h.id, is_notify, 1, path.as_bytes(), bfmt, &body);
@@ -984,7 +1017,7 @@ fn gen_specs(rng: &mut Rng, thorough: bool) -> Vec<Spec> {
             kinds = CLIENT_KINDS.to_vec();
         }
         if cfg_ocap(cfg).is_some() {
-            kinds.retain(|k| !matches!(*k, "pushn" | "bcast" | "bcastj" | "bcastu") && !CLIENT_KINDS.contains(k));
+            kinds.retain(|k| !matches!(*k, "pushn" | "pushrun" | "bcast" | "bcastj" | "bcastu") && !CLIENT_KINDS.contains(k));
         }
         // endpoints built without any limits guard at 16 MiB: a few frames right at that boundary per path
         let heavy = cfg == "d";
@@ -1068,7 +1101,7 @@ fn gen_specs(rng: &mut Rng, thorough: bool) -> Vec<Spec> {
                         _ => rng.range(1, 24.min((t - 48).max(1)) as u64) as usize,
                     },
                 };
-                let min_b = if matches!(k, "joff" | "bcastj" | "cjson" | "cjsont" | "ctyped" | "rwrite" | "njson" | "batch" | "cbeve" | "nbeve") { 2 } else { 0 };
+                let min_b = if matches!(k, "joff" | "bcastj" | "cjson" | "cjsont" | "ctyped" | "rwrite" | "njson" | "batch" | "batchrun" | "cbeve" | "nbeve") { 2 } else { 0 };
                 if t < 48 + qlen + min_b {
                     continue;
                 }
@@ -1078,7 +1111,7 @@ fn gen_specs(rng: &mut Rng, thorough: bool) -> Vec<Spec> {
                     qlen += 1;
                     blen -= 1;
                 }
-                if heavy && matches!(k, "cbeve" | "nbeve" | "bcastj" | "bcastu" | "batch" | "cjsont" | "ctyped" | "rwrite" | "njson" | "cjson") {
+                if heavy && matches!(k, "cbeve" | "nbeve" | "bcastj" | "bcastu" | "batch" | "batchrun" | "pushrun" | "cjsont" | "ctyped" | "rwrite" | "njson" | "cjson") {
                     continue;
                 }
                 id += 1;
@@ -1108,6 +1141,13 @@ fn gen_specs(rng: &mut Rng, thorough: bool) -> Vec<Spec> {
                         specs.push(Spec { idx: String::new(), kind: k.to_string(), cfg: cfg.clone(), limit: *lim, id, qlen, blen: t - 48 - qlen });
                     }
                 }
+            }
+        }
+        // far over a small limit AND over the transport's write buffer (128 KiB)
+        if matches!(cfg.as_str(), "1024" | "4096" | "65536" | "200") {
+            for k in ["inline", "bcast", "call", "notify", "push", "proxy"] {
+                id += 1;
+                specs.push(Spec { idx: String::new(), kind: k.to_string(), cfg: cfg.clone(), limit: *lim, id, qlen: 5, blen: 200_000 + rng.below(5000) as usize });
             }
         }
         // sizes around the transport's write buffer (tungstenite: 128 KiB) inside a larger limit / no limit
